@@ -928,6 +928,7 @@ open DDP.LadderParse
 def tokOf (s : String) : Option Tok :=
   if s == "(" then some .lp else if s == ")" then some .rp
   else if s == "f" then some .falls else if s == "s" then some .sonst
+  else if s == "x" then some .entw else if s == "y" then some .oderk
   else match s.toList with
     | 'a' :: r => (String.ofList r).toNat?.map .atom
     | 'o' :: r => (String.ofList r).toNat?.map .bop
@@ -939,6 +940,7 @@ def render : E → String
   | .un u e => s!"(un {u} {render e})"
   | .bin o l r => s!"(bin {o} {render l} {render r})"
   | .ite a c b => s!"(ite {render a} {render c} {render b})"
+  | .xor a b => s!"(xor {render a} {render b})"
 
 end LadderP
 
